@@ -97,6 +97,7 @@ def run(chk, repo, tier):
     C04b.run_p19_p20(chk, repo)
     from rules.C01b import run_theta_sentinels
     run_theta_sentinels(chk, repo, 'P21')
+    C04b.run_p22(chk, repo)
 
     tm = repo.module(f'{NM}.records.theta_record')
     om = repo.module(f'{NM}.records.omega_record')
